@@ -80,8 +80,8 @@ CLAIMED = {
              "documented keys, naming_supported) written in ANY layout, the text is accepted and the generated structure has the documented shape - one member: open array, "
              "otherwise a record with the documented keys - at any nesting depth and width (C19_documented_shape, from C19_validation_accepts, C19_format_of_tokens, "
              "C19_shape_of_format by nested induction over the definition); the validation only accepts closed definitions over the list tag or known names "
-             "(C19_accepts_only_closed_known, C19_structure_only_of_closed); the documentation's examples and rejections as computed instances; the naming heuristic's failure "
-             "is proved (C19_name_handdown_refuted, known finding). The model (tokenizer, validation, _generate_from_sfdl, generate) is tied to the code by differential "
+             "(C19_accepts_only_closed_known, C19_structure_only_of_closed), and the definition has to be the whole text (C19_structure_only_of_whole_text, D56); the "
+             "documentation's examples and rejections as computed instances; two failures are proved and recorded as known findings (C19_name_handdown_refuted, C19_duplicate_keys_refuted). The model (tokenizer, validation, _generate_from_sfdl, generate) is tied to the code by differential "
              "correspondence on random and exhaustively enumerated small definitions and their bracket/name mutations.",
         note=NOTE_COMMON + " The data item attribute table is regenerated reflectively (imports /repo's secsgem.secs.data_items). Empty lists are outside the documented grammar; an unnamed open list whose single member is a named list gets no key from the documentation and is outside naming_supported.",
         technique="Rocq proof (lexer layout lemma; print/parse theorem for the whole reader by nested induction over definitions; computed instances) + translator-regenerated data item table + in-Coq differential correspondence against the documented-shape specification",
@@ -93,9 +93,9 @@ CLAIMED = {
              "and read back by from_sml as exactly that item (C15_roundtrip, from C15_tokens_of_printed_text and C15_reader_inverts_printer by nested induction over the item); "
              "on any text the reader's recursion is bounded by the number of tokens (C15_reader_terminates), every returned item consumed tokens (C15_reader_consumes); an item "
              "is only returned for tokens that start with '<' and a known type name and whose consumed part ends with '>' (C15_accepts_only_closed_known, "
-             "C15_scalar_needs_closing_bracket); every integer printed is read back unchanged (C15_integers_roundtrip); computed instances. Non-empty F4/F8 items (float "
+             "C15_scalar_needs_closing_bracket) - and only if these are ALL tokens of the text: nothing may follow the item (C15_whole_text_is_one_item, D53); every integer printed is read back unchanged (C15_integers_roundtrip); computed instances. Non-empty F4/F8 items (float "
              "formatting, float()) are decided by the differential correspondence and the observed round trip only.",
-        note=NOTE_COMMON + " float(text) and float formatting are not modelled (float items are judged by the observed round trip only); int('1_0') and non-ASCII digits are skipped; bools held by integer items are outside the item domain.",
+        note=NOTE_COMMON + " float(text) and float formatting are not modelled (float items are judged by the observed round trip only); int('1_0') and non-ASCII digits are skipped; text nested deeper than CPython's recursion limit allows is the open finding C15-deep-nesting (directed probe).",
         technique="Rocq proof (print/parse round trip by nested induction with lexer-state lemmas, 256-case byte-code facts lifted from evaluation, termination/consumption by induction on fuel and tokens, decimal round trip) + regenerated constants + in-Coq differential correspondence",
         design="5/C15",
     ),
@@ -149,7 +149,9 @@ CLAIMED = {
              "only steps an independent E30 reference admits (C07_history_refines_e30; one-step refinement decided over the finite state space x event alphabet, COMMACK "
              "shown to matter only as zero/non-zero, lifted by induction); COMMUNICATING only after an accepting exchange on the current link "
              "(C07_established_only_after_exchange, ghost-flag invariant over all histories); link loss and disable leave it; refused, unreadable and unanswered attempts go "
-             "to WAIT DELAY and are retried with a new S1F13 (C07_attempt_retried); nothing reaches the application while not COMMUNICATING.",
+             "to WAIT DELAY and are retried with a new S1F13 (C07_attempt_retried); a request of the peer is answered - and, accepted, establishes - in WAIT DELAY as in WAIT CRA "
+             "(C07_request_answered_in_wait_delay, D66), a denied one or one whose S1F14 cannot be sent does not (C07_denied_request_does_not_establish, "
+             "C07_unanswerable_request_does_not_establish); nothing reaches the application while not COMMUNICATING.",
         note=NOTE_COMMON + " Timers are modelled as events (the rig replaces threading.Timer inside communication_state_machine by timers it fires); real-time bounds and a timer "
              "firing concurrently with a message are not explored. The handler gate (_on_message_received) is hand-modelled.",
         technique="Rocq proof (finite-state refinement lifted by induction, ghost-state invariant) + translator-regenerated state machine + in-Coq differential correspondence with controlled timers",
